@@ -266,3 +266,241 @@ func TestVerifC12Cleaner(t *testing.T) {
 		}
 	})
 }
+
+// ---------------------------------------------------------------------------------------------- mode=sched client=cleaner
+//
+// TestVerifC12CleanerSched: cleaner.go with the HARNESS as the wheel's run loop (see mode=sched in
+// core/collection/zz_verif_c12_test.go and zz_verif_c12_sched.go). A request is received only when every other
+// goroutine is blocked, by the priority order of the section, and not at all once the client's call has returned
+// and neither a clean callback nor a task scheduled by clean is running; `detached=N` = goroutines still blocked
+// inside a public method of the wheel then. rq= prints the requests: set:<task id>:<stored delay>:<timer delay>.
+
+func c12csGen(r *verifh.Rng) []verifh.Section {
+	var secs []verifh.Section
+	for i := verifh.Scale(24, 150); i > 0; i-- {
+		var ops []string
+		id := 0
+		tick := func(c int) {
+			for j := 0; j < c; j++ {
+				ops = append(ops, "tick")
+			}
+		}
+		add := func() {
+			oc := ""
+			for j := r.Range(0, 3); j > 0; j-- {
+				oc += r.PickS("f", "f", "s")
+			}
+			ops = append(ops, fmt.Sprintf("add %d %s", id, oc+r.PickS("s", "f")))
+			id++
+		}
+		if i%6 == 1 {
+			// more failing tasks than cleanWorkers / drainWorkers due at once, then the shutdown Drain
+			for j := r.Pick(6, 9, 14); j > 0; j-- {
+				add()
+			}
+			tick(r.Pick(0, 1))
+			ops = append(ops, "drain")
+		}
+		for j := r.Range(4, 16); j > 0; j-- {
+			switch x := r.Intn(10); {
+			case x < 4:
+				add()
+			case x < 5:
+				ops = append(ops, "drain")
+			case x < 8:
+				tick(r.Pick(1, 1, 4, 5, 6))
+			default:
+				tick(r.Pick(1, 2, 59, 60, 61))
+			}
+		}
+		tick(r.Pick(1, 6, 66))
+		p := []string{"set", "move", "remove", "drain"}
+		for a := len(p) - 1; a > 0; a-- {
+			b := r.Intn(a + 1)
+			p[a], p[b] = p[b], p[a]
+		}
+		secs = append(secs, verifh.Section{Cfg: "n=300 interval=1000000000 mode=sched client=cleaner pri=" + strings.Join(p, ","), Ops: ops})
+	}
+	return secs
+}
+
+func TestVerifC12CleanerSched(t *testing.T) {
+	logx.Disable()
+	secs := verifh.Sections(c12csGen)
+	verifh.Run(t, secs, func(cfg verifh.Cfg) (func(op []string) string, func()) {
+		var mu sync.Mutex
+		var fired []string
+		active := 0
+		exec := func(k, v any) {
+			dt, ok := v.(delayTask)
+			mu.Lock()
+			active++
+			if !ok || len(dt.keys) != 1 {
+				fired = append(fired, fmt.Sprintf("BAD-VALUE:%T", v))
+			} else {
+				fired = append(fired, fmt.Sprintf("%s:%d", dt.keys[0], int64(dt.delay)))
+			}
+			mu.Unlock()
+			defer func() {
+				mu.Lock()
+				active--
+				mu.Unlock()
+			}()
+			if ok {
+				clean(k, v)
+			}
+		}
+		tw0, err := collection.NewTimingWheelWithTicker(time.Second, timingWheelSlots, exec, &c12cTicker{c: make(chan time.Time)})
+		if err != nil {
+			panic(err)
+		}
+		tw := collection.VerifC12SchedWheel(tw0, exec)
+		old := timingWheel.Load()
+		timingWheel.Store(tw)
+		pri := strings.Split(cfg.Str("pri", "set,move,remove,drain"), ",")
+		if !collection.VerifC12Quiesce() {
+			panic("the wheel's own run loop did not return after Stop")
+		}
+		show := func(key, value any) (string, string) {
+			if dt, ok := value.(delayTask); ok && len(dt.keys) == 1 {
+				return dt.keys[0], fmt.Sprint(int64(dt.delay)) // the random key of the task is identified with its id
+			}
+			return fmt.Sprint(key), fmt.Sprint(value)
+		}
+		// busy: a clean callback, or a task clean handed to the task runner, is still running
+		busy := func() bool {
+			mu.Lock()
+			a := active
+			mu.Unlock()
+			if a > 0 {
+				return true
+			}
+			for _, g := range collection.VerifC12Goroutines()[1:] {
+				if i := strings.Index(g, "\ncreated by "); i >= 0 {
+					g = g[:i]
+				}
+				if strings.Contains(g, "/core/stores/cache/cleaner.go:") { // a frame of cleaner.go (clean may be inlined: no name to go by)
+					return true
+				}
+			}
+			return false
+		}
+		hung := false
+		var rq []string
+		poll := func() bool {
+			tok, ok := collection.VerifC12Poll(tw, pri, show)
+			if ok {
+				rq = append(rq, tok)
+			}
+			return ok
+		}
+		serve := func(returned func() bool) string {
+			for {
+				if !collection.VerifC12Quiesce() {
+					hung = true
+					return "TIMEOUT-quiesce"
+				}
+				if returned() && !busy() {
+					return ""
+				}
+				if !poll() {
+					if !returned() {
+						hung = true
+						return "BLOCKED"
+					}
+					return ""
+				}
+			}
+		}
+		call := func(f func()) string {
+			done := make(chan struct{})
+			go func() { defer close(done); f() }()
+			got := false
+			return serve(func() bool {
+				if !got {
+					select {
+					case <-done:
+						got = true
+					default:
+					}
+				}
+				return got
+			})
+		}
+		outcomes := map[string][]byte{}
+		runs := map[string]int{}
+		step := func(op []string) string {
+			if hung {
+				return "TIMEOUT-skipped"
+			}
+			rq = nil
+			note := ""
+			sortRq := true
+			var res []string
+			switch {
+			case op[0] == "add" && len(op) == 3:
+				id := op[1]
+				mu.Lock()
+				outcomes[id] = []byte(op[2])
+				mu.Unlock()
+				task := func() error {
+					mu.Lock()
+					defer mu.Unlock()
+					n := runs[id]
+					runs[id]++
+					if n < len(outcomes[id]) && outcomes[id][n] == 'f' {
+						return errors.New("store is down")
+					}
+					return nil
+				}
+				sortRq = false
+				note = call(func() { AddCleanTask(task, id) })
+			case op[0] == "tick" && len(op) == 1:
+				for poll() {
+				}
+				collection.VerifC12Tick(tw)
+				note = serve(func() bool { return true })
+			case op[0] == "drain" && len(op) == 1:
+				var derr error
+				note = call(func() { derr = tw.Drain(exec) })
+				if derr != nil {
+					res = append(res, "err="+derr.Error())
+				}
+			default:
+				return "bad-op"
+			}
+			if note != "" {
+				return note
+			}
+			if len(rq) > 0 {
+				if sortRq {
+					sort.Strings(rq)
+				}
+				res = append(res, "rq="+strings.Join(rq, ","))
+			}
+			mu.Lock()
+			out := fired
+			fired = nil
+			mu.Unlock()
+			sort.Slice(out, func(i, j int) bool {
+				var a, b int
+				fmt.Sscanf(out[i], "%d:", &a)
+				fmt.Sscanf(out[j], "%d:", &b)
+				return a < b
+			})
+			res = append(res, out...)
+			if d := collection.VerifC12InWheelAPI(); d > 0 {
+				res = append(res, fmt.Sprintf("detached=%d", d))
+			}
+			if len(res) == 0 {
+				return "-"
+			}
+			return strings.Join(res, " ")
+		}
+		return step, func() {
+			timingWheel.Store(old)
+			tw.Stop()
+			collection.VerifC12Quiesce()
+		}
+	})
+}
